@@ -61,8 +61,9 @@ def main():
         mp = os.path.join(sd, name, 'meta.json')
         if os.path.exists(mp) and row[3] in ('0', '1'):
             meta = json.load(open(mp))
-            meta['coordinator_result'] = {'check': pid, 'tier': tier, 'repo_head': head,
-                                          'result': 'caught' if row[3] == '1' else 'missed', 'new_violations': row[4]}
+            keep = {k: v for k, v in (meta.get('coordinator_result') or {}).items() if k in ('at_import_time', 'suite_with_change')}
+            meta['coordinator_result'] = dict(keep, check=pid, tier=tier, repo_head=head,
+                                              result='caught' if row[3] == '1' else 'missed', new_violations=row[4])
             json.dump(meta, open(mp, 'w'), indent=1, ensure_ascii=False)
         return row
 
